@@ -23,14 +23,16 @@ def _call_chain(an, m, f):
     """The module functions applied one inside the other (by first argument) in f's returned expression, innermost first."""
     from .encode_model import inline_locals
     rets = [n for n in ast.walk(f.node) if isinstance(n, ast.Return) and n.value is not None]
-    if len(rets) != 1:
-        return []
-    e = inline_locals(f.node, rets[0].value)
-    chain = []
-    while isinstance(e, ast.Call) and isinstance(e.func, ast.Name) and e.func.id in m.functions and e.args:
-        chain.append(m.functions[e.func.id])
-        e = e.args[0]
-    return list(reversed(chain)), e
+    best = []
+    for r in rets:
+        e = inline_locals(f.node, r.value)
+        chain = []
+        while isinstance(e, ast.Call) and isinstance(e.func, ast.Name) and e.func.id in m.functions and e.args:
+            chain.append(m.functions[e.func.id])
+            e = e.args[0]
+        if len(chain) > (len(best[0]) if best else 0):
+            best = (list(reversed(chain)), e)
+    return best
 
 
 def find_stages(an: Analysis):
